@@ -39,7 +39,7 @@ type c16Opts struct {
 }
 
 type c16In struct {
-	Mode   string  `json:"mode"` // consume | produce | pair
+	Mode   string  `json:"mode"` // consume | produce | pair | hist
 	Text   Bs      `json:"text"`
 	Opts   c16Opts `json:"opts"`
 	Dst    string  `json:"dst,omitempty"`
@@ -51,6 +51,7 @@ type c16In struct {
 	Elem   string  `json:"elem,omitempty"`    // record table (dst in consume/pair, src in produce): "" [][]string | named | mystr | row
 	Stress int     `json:"stress,omitempty"`  // produce: repeat the call this many times concurrently; any run that differs is the observable
 	Chunk  int     `json:"chunk,omitempty"`   // reader / WriterTo hands the text over in pieces of this size (0 = at once)
+	Calls  []c16In `json:"calls,omitempty"`   // hist: the calls made through ONE consumer value and ONE producer value built with Opts
 }
 
 type c16PEntry struct {
@@ -91,6 +92,7 @@ type c16Step struct {
 
 type c16Obs struct {
 	Steps []c16Step `json:"steps"`
+	Fin   []c16Step `json:"fin,omitempty"` // hist: the steps again, every destination re-read after the last call
 }
 
 type c16 struct{}
@@ -457,6 +459,19 @@ func c16SameRows(a, b [][]string) bool {
 }
 
 func c16Consume(in c16In, text string) c16Step {
+	st, _ := c16ConsumeWith(runtime.CSVConsumer(c16GoOpts(in.Opts)...), in, text)
+	return st
+}
+
+// c16Retained: what a call of a history left in the caller's hands. again() observes the destination once more (the
+// step as it reads NOW); rows are the record slices the caller holds.
+type c16Retained struct {
+	again func() c16Step
+	rows  func() [][]string
+}
+
+// c16ConsumeWith makes one Consume call through the given consumer value (built with in.Opts).
+func c16ConsumeWith(cons runtime.Consumer, in c16In, text string) (c16Step, c16Retained) {
 	st := c16Step{Rep: "none", Text: Bs(text)}
 	o := in.Opts
 	c16Oracles(&st, o, text, false)
@@ -465,7 +480,6 @@ func c16Consume(in c16In, text string) c16Step {
 			c16RenderFor(&st, o, p.Recs)
 		}
 	}
-	cons := runtime.CSVConsumer(c16GoOpts(o)...)
 	src := &c16ChunkReader{s: text, chunk: in.Chunk}
 
 	var data any
@@ -525,102 +539,130 @@ func c16Consume(in c16In, text string) c16Step {
 		}
 	}
 	err, panicked, msg, hung := c16Guard(func() error { return cons.Consume(src, data) })
-	st.Untouched = true
-	switch {
-	case hung:
-		st.Kind, st.Panic, st.Hung = "panic", "hung", true
-		return st
-	case panicked:
-		st.Kind, st.Panic = "panic", msg
-		return st
-	case err != nil:
-		c16ErrClass(err, &st)
+	// observe reads the destination into a copy of the step; probe: also make the two later calls that look for
+	// storage shared with what a later call delivers (only right after the call, not when re-reading)
+	var aliased bool
+	observe := func(probe bool) c16Step {
+		st := st
+		st.Untouched = true
+		switch {
+		case hung:
+			st.Kind, st.Panic, st.Hung = "panic", "hung", true
+			return st
+		case panicked:
+			st.Kind, st.Panic = "panic", msg
+			return st
+		case err != nil:
+			c16ErrClass(err, &st)
+			switch in.Dst {
+			case "records":
+				if !in.Nil && in.Elem == "" {
+					st.Untouched = len(table) == in.PreLen && cap(table) == in.PreCap && fmt.Sprint(table) == fmt.Sprint(pre)
+				}
+			case "bytes":
+				st.Untouched = string(bts) == "old"
+			case "string":
+				st.Untouched = str == "old"
+			case "readerfrom":
+				st.Untouched = rf.b.Len() == 0
+			case "binaryunmarshaler":
+				st.Untouched = !um.called
+			}
+			return st
+		}
+		wc, _ := c16EffW(o)
 		switch in.Dst {
-		case "records":
-			if !in.Nil && in.Elem == "" {
-				st.Untouched = len(table) == in.PreLen && cap(table) == in.PreCap && fmt.Sprint(table) == fmt.Sprint(pre)
+		case "csvwriter", "writer":
+			st.Kind, st.Bytes = "bytes", Bs(buf.String())
+		case "CSVWriter":
+			st.Kind, st.Rows = "recs", c16Rows(recw.rows)
+			// a caller's writer may retain the slices it is handed. Unless the caller asked for ReuseRecord they are its own:
+			// they still read as they did when handed over and no two of them share storage
+			if !o.Reuse {
+				st.Aliased = !c16SameRows(recw.kept, recw.rows) || c16Aliased(recw.kept)
 			}
-		case "bytes":
-			st.Untouched = string(bts) == "old"
-		case "string":
-			st.Untouched = str == "old"
 		case "readerfrom":
-			st.Untouched = rf.b.Len() == 0
+			st.Kind, st.Bytes = "bytes", Bs(rf.b.String())
 		case "binaryunmarshaler":
-			st.Untouched = !um.called
+			st.Kind, st.Bytes = "bytes", Bs(um.b)
+		case "records":
+			tbl := table
+			switch in.Elem {
+			case "named":
+				tbl = named
+			case "mystr":
+				tbl = nil
+				for _, r := range mystr {
+					row := []string{}
+					for _, f := range r {
+						row = append(row, string(f))
+					}
+					tbl = append(tbl, row)
+				}
+			case "row":
+				tbl = nil
+				for _, r := range rowt {
+					tbl = append(tbl, r)
+				}
+			}
+			st.Kind, st.Rows, st.Len, st.Cap = "recs", c16Rows(tbl), len(tbl), cap(tbl)
+			if (in.Elem == "" || in.Elem == "named") && probe {
+				// the delivered records belong to the caller: no two of them share storage, up to their full capacity, and
+				// neither do they share any with what a later call (of this consumer or of a new one) delivers or writes
+				delivered := append([][]string(nil), tbl...)
+				before := c16Strs(st.Rows)
+				all := delivered
+				for _, c := range []runtime.Consumer{cons, runtime.CSVConsumer(c16GoOpts(o)...)} {
+					var later [][]string
+					e2, p2, _, h2 := c16Guard(func() error { return c.Consume(&c16ChunkReader{s: text, chunk: in.Chunk}, &later) })
+					if h2 {
+						break // that call still runs: leave its destination alone
+					}
+					if e2 == nil && !p2 {
+						all = append(all, later...)
+					}
+				}
+				aliased = !c16SameRows(delivered, before) || c16Aliased(all)
+			}
+			st.Aliased = aliased
+		case "bytes":
+			st.Kind, st.Bytes = "bytes", Bs(bts)
+		case "string":
+			st.Kind, st.Bytes = "bytes", Bs(str)
+		}
+		if st.Kind == "bytes" {
+			c16Reparse(&st, string(st.Bytes), wc)
 		}
 		return st
 	}
-	wc, _ := c16EffW(o)
-	switch in.Dst {
-	case "csvwriter", "writer":
-		st.Kind, st.Bytes = "bytes", Bs(buf.String())
-	case "CSVWriter":
-		st.Kind, st.Rows = "recs", c16Rows(recw.rows)
-		// a caller's writer may retain the slices it is handed. Unless the caller asked for ReuseRecord they are its own:
-		// they still read as they did when handed over and no two of them share storage
-		if !o.Reuse {
-			st.Aliased = !c16SameRows(recw.kept, recw.rows) || c16Aliased(recw.kept)
+	rows := func() [][]string {
+		if hung || panicked || err != nil {
+			return nil
 		}
-	case "readerfrom":
-		st.Kind, st.Bytes = "bytes", Bs(rf.b.String())
-	case "binaryunmarshaler":
-		st.Kind, st.Bytes = "bytes", Bs(um.b)
-	case "records":
-		switch in.Elem {
-		case "named":
-			table = named
-		case "mystr":
-			table = nil
-			for _, r := range mystr {
-				row := []string{}
-				for _, f := range r {
-					row = append(row, string(f))
-				}
-				table = append(table, row)
-			}
-		case "row":
-			table = nil
-			for _, r := range rowt {
-				table = append(table, r)
-			}
+		switch {
+		case in.Dst == "CSVWriter" && !o.Reuse:
+			return recw.kept
+		case in.Dst == "records" && in.Elem == "":
+			return table
+		case in.Dst == "records" && in.Elem == "named":
+			return named
 		}
-		st.Kind, st.Rows, st.Len, st.Cap = "recs", c16Rows(table), len(table), cap(table)
-		if in.Elem == "" || in.Elem == "named" {
-			// the delivered records belong to the caller: no two of them share storage, up to their full capacity, and
-			// neither do they share any with what a later call (of this consumer or of a new one) delivers or writes
-			delivered := append([][]string(nil), table...)
-			before := c16Strs(st.Rows)
-			all := delivered
-			for _, c := range []runtime.Consumer{cons, runtime.CSVConsumer(c16GoOpts(o)...)} {
-				var later [][]string
-				e2, p2, _, h2 := c16Guard(func() error { return c.Consume(&c16ChunkReader{s: text, chunk: in.Chunk}, &later) })
-				if h2 {
-					break // that call still runs: leave its destination alone
-				}
-				if e2 == nil && !p2 {
-					all = append(all, later...)
-				}
-			}
-			st.Aliased = !c16SameRows(delivered, before) || c16Aliased(all)
-		}
-	case "bytes":
-		st.Kind, st.Bytes = "bytes", Bs(bts)
-	case "string":
-		st.Kind, st.Bytes = "bytes", Bs(str)
+		return nil
 	}
-	if st.Kind == "bytes" {
-		c16Reparse(&st, string(st.Bytes), wc)
-	}
-	return st
+	return observe(true), c16Retained{again: func() c16Step { return observe(false) }, rows: rows}
 }
 
 func c16Produce(in c16In, text string) (c16Step, string) {
+	st, mid, _ := c16ProduceWith(runtime.CSVProducer(c16GoOpts(in.Opts)...), in, text)
+	return st, mid
+}
+
+// c16ProduceWith makes one Produce call through the given producer value (built with in.Opts).
+func c16ProduceWith(prod runtime.Producer, in c16In, text string) (c16Step, string, c16Retained) {
 	st := c16Step{Rep: "none", Text: Bs(text), Untouched: true}
 	o := in.Opts
 	c16Oracles(&st, o, text, in.Src == "binarymarshaler")
 	req := st.PT[0]
-	prod := runtime.CSVProducer(c16GoOpts(o)...)
 	var sink bytes.Buffer
 	var data any
 	switch in.Src {
@@ -728,26 +770,74 @@ func c16Produce(in c16In, text string) (c16Step, string) {
 		}
 		wg.Wait()
 	}
-	switch {
-	case hung:
-		st.Kind, st.Panic, st.Hung = "panic", "hung", true
-		return st, ""
-	case panicked:
-		st.Kind, st.Panic = "panic", msg
-		return st, sink.String()
-	case err != nil:
-		c16ErrClass(err, &st)
-		return st, sink.String()
+	observe := func() c16Step {
+		st := st
+		switch {
+		case hung:
+			st.Kind, st.Panic, st.Hung = "panic", "hung", true
+			return st
+		case panicked:
+			st.Kind, st.Panic = "panic", msg
+			return st
+		case err != nil:
+			c16ErrClass(err, &st)
+			return st
+		}
+		st.Kind, st.Bytes = "bytes", Bs(sink.String())
+		wc, _ := c16EffW(o)
+		c16Reparse(&st, sink.String(), wc)
+		return st
 	}
-	st.Kind, st.Bytes = "bytes", Bs(sink.String())
-	wc, _ := c16EffW(o)
-	c16Reparse(&st, sink.String(), wc)
-	return st, sink.String()
+	mid := ""
+	if !hung {
+		mid = sink.String()
+	}
+	return observe(), mid, c16Retained{again: observe, rows: func() [][]string { return nil }}
+}
+
+// c16Hist: ONE consumer value and ONE producer value, built once with the options of the history, serve all its calls.
+// Every call is observed right after it returned and once more after the last call returned; the record slices the
+// calls left in the caller's hands must not share storage with one another either.
+func c16Hist(in c16In) c16Obs {
+	cons := runtime.CSVConsumer(c16GoOpts(in.Opts)...)
+	prod := runtime.CSVProducer(c16GoOpts(in.Opts)...)
+	var obs c16Obs
+	var kept []c16Retained
+	for _, call := range in.Calls {
+		call.Opts = in.Opts
+		var st c16Step
+		var rt c16Retained
+		switch call.Mode {
+		case "consume":
+			st, rt = c16ConsumeWith(cons, call, string(call.Text))
+		case "produce":
+			st, _, rt = c16ProduceWith(prod, call, string(call.Text))
+		default:
+			panic("hist: call mode " + call.Mode)
+		}
+		obs.Steps = append(obs.Steps, st)
+		kept = append(kept, rt)
+	}
+	var all [][]string
+	for _, rt := range kept {
+		all = append(all, rt.rows()...)
+	}
+	cross := len(all) <= 400 && c16Aliased(all)
+	for _, rt := range kept {
+		st := rt.again()
+		if st.Kind == "recs" && cross && len(rt.rows()) > 0 {
+			st.Aliased = true
+		}
+		obs.Fin = append(obs.Fin, st)
+	}
+	return obs
 }
 
 func (c16) Run(x any) any {
 	in := x.(c16In)
 	switch in.Mode {
+	case "hist":
+		return c16Hist(in)
 	case "consume":
 		return c16Obs{Steps: []c16Step{c16Consume(in, string(in.Text))}}
 	case "produce":
@@ -850,6 +940,21 @@ func c16CoqProd(in c16In, st c16Step, nilSrc bool) string {
 func (c16) Coq(x any, y any) string {
 	in, obs := x.(c16In), y.(c16Obs)
 	switch in.Mode {
+	case "hist":
+		list := func(steps []c16Step) string {
+			var parts []string
+			for i, st := range steps {
+				call := in.Calls[i]
+				call.Opts = in.Opts
+				if call.Mode == "consume" {
+					parts = append(parts, c16CoqCons(call, st, call.Nil))
+				} else {
+					parts = append(parts, c16CoqProd(call, st, call.Nil))
+				}
+			}
+			return "[" + strings.Join(parts, "; ") + "]"
+		}
+		return "(CHist " + list(obs.Steps) + " " + list(obs.Fin) + ")"
 	case "consume":
 		return c16CoqCons(in, obs.Steps[0], in.Nil)
 	case "produce":
@@ -861,8 +966,46 @@ func (c16) Coq(x any, y any) string {
 
 func (c16) Classify(x any, y any) []string { return nil }
 
+func c16HistCategory(in c16In, obs c16Obs) (string, bool) {
+	parts := []string{fmt.Sprintf("hist calls=%d", len(in.Calls))}
+	var ops []string
+	texts := map[string]bool{}
+	for _, c := range in.Calls {
+		if c.Mode == "consume" {
+			ops = append(ops, ">"+c.Dst)
+		} else {
+			ops = append(ops, "<"+c.Src)
+		}
+		texts[string(c.Text)] = true
+	}
+	parts = append(parts, strings.Join(ops, ","))
+	if len(texts) > 1 {
+		parts = append(parts, "texts:different")
+	} else {
+		parts = append(parts, "texts:same")
+	}
+	switch {
+	case in.Opts.Skip < 0:
+		parts = append(parts, "skip<0")
+	case in.Opts.Skip > 0:
+		parts = append(parts, "skip>0")
+	}
+	if in.Opts.Reuse {
+		parts = append(parts, "reuse")
+	}
+	kinds := ""
+	for _, st := range obs.Steps {
+		kinds += st.Kind[:1]
+	}
+	parts = append(parts, "->"+kinds)
+	return strings.Join(parts, " "), true
+}
+
 func (c16) Category(x any, y any) (string, bool) {
 	in, obs := x.(c16In), y.(c16Obs)
+	if in.Mode == "hist" {
+		return c16HistCategory(in, obs)
+	}
 	o := in.Opts
 	var parts []string
 	switch in.Mode {
@@ -1079,7 +1222,82 @@ func c16GenSkip(r *rand.Rand, o c16Opts, text string) int {
 	}
 }
 
+// c16GenHist: one option set, 2 to 4 calls through the same consumer / producer value. Neighbouring calls differ in the
+// text only, in the destination / source kind only, or in everything.
+func c16GenHist(r *rand.Rand) c16In {
+	var o c16Opts
+	sep := ","
+	if r.Intn(2) == 0 {
+		o, sep = c16GenOpts(r)
+	}
+	text := func() string {
+		if r.Intn(8) == 0 {
+			return c16BadText(r, sep)
+		}
+		return c16Text(r, sep, o.FPR < 0 && r.Intn(2) == 0)
+	}
+	first := text()
+	switch r.Intn(5) {
+	case 0:
+		o.Skip = c16GenSkip(r, o, first)
+	case 1:
+		o.Skip = 0
+	default: // header lines
+		o.Skip = 1 + r.Intn(2)
+	}
+	buffered := []string{"bytes", "bytes", "string", "readerfrom", "binaryunmarshaler"}
+	one := func(t string) c16In {
+		c := c16In{Text: Bs(t)}
+		if r.Intn(4) == 0 {
+			c.Chunk = 1 + r.Intn(8)
+		}
+		if r.Intn(10) < 7 {
+			c.Mode = "consume"
+			switch r.Intn(3) {
+			case 0:
+				c.Dst = buffered[r.Intn(len(buffered))]
+			case 1:
+				c.Dst = "records"
+			default:
+				c.Dst = c16Dsts[r.Intn(8)]
+			}
+			if c.Dst == "records" && r.Intn(3) == 0 {
+				c.PreCap = 1 + r.Intn(9)
+				c.PreLen = r.Intn(c.PreCap + 1)
+			}
+		} else {
+			c.Mode = "produce"
+			c.Src = c16Srcs[r.Intn(8)]
+			c.Ptr = r.Intn(3) == 0 && (c.Src == "records" || c.Src == "bytes" || c.Src == "string")
+		}
+		return c
+	}
+	in := c16In{Mode: "hist", Opts: o}
+	n := 2 + r.Intn(3)
+	in.Calls = append(in.Calls, one(first))
+	for len(in.Calls) < n {
+		prev := in.Calls[len(in.Calls)-1]
+		var next c16In
+		switch r.Intn(4) {
+		case 0: // the same call again
+			next = prev
+		case 1: // same destination / source kind, another text
+			next = prev
+			next.Text = Bs(text())
+		case 2: // same text, another kind
+			next = one(string(prev.Text))
+		default:
+			next = one(text())
+		}
+		in.Calls = append(in.Calls, next)
+	}
+	return in
+}
+
 func (c16) Gen(r *rand.Rand, tier string, i int) any {
+	if r.Intn(9) == 0 {
+		return c16GenHist(r)
+	}
 	var o c16Opts
 	sep := ","
 	if r.Intn(3) != 0 {
@@ -1162,6 +1380,44 @@ func (c16) Enumerate(tier string) []any {
 	}
 	for _, s := range []string{"csvreader", "records", "bytes", "string"} {
 		out = append(out, c16In{Mode: "produce", Text: Bs(text), Src: s, Nil: true})
+	}
+	// histories: every destination kind followed by every destination kind (another text, shorter and longer), then the
+	// first call again; every source kind three times; with header lines to skip and without
+	text2 := "k\nv1\nv2\n"
+	text3 := "h1,h2,h3\nlonger,than,\"the first, text\"\nrow3,b,c\nrow4,e,f\nrow5,h,i\n"
+	for hi, o := range []c16Opts{{Skip: 1}, {Reuse: true, WComma: ';'}} {
+		for i, d1 := range c16Dsts {
+			for j, d2 := range c16Dsts {
+				if tier == "quick" && hi == 1 && (i+j)%2 == 1 {
+					continue
+				}
+				other := text2
+				if (i+j)%2 == 1 {
+					other = text3
+				}
+				out = append(out, c16In{Mode: "hist", Opts: o, Calls: []c16In{
+					{Mode: "consume", Text: Bs(text), Dst: d1}, {Mode: "consume", Text: Bs(other), Dst: d2}, {Mode: "consume", Text: Bs(text), Dst: d1}}})
+				if d1 == "bytes" || d1 == "records" { // the destinations that may keep looking at the codec's storage: the other text too
+					if other == text2 {
+						other = text3
+					} else {
+						other = text2
+					}
+					out = append(out, c16In{Mode: "hist", Opts: o, Calls: []c16In{
+						{Mode: "consume", Text: Bs(text), Dst: d1}, {Mode: "consume", Text: Bs(other), Dst: d2}}})
+				}
+			}
+		}
+		for _, sk := range c16Srcs {
+			out = append(out, c16In{Mode: "hist", Opts: o, Calls: []c16In{
+				{Mode: "produce", Text: Bs(text), Src: sk}, {Mode: "produce", Text: Bs(text2), Src: sk}, {Mode: "consume", Text: Bs(text3), Dst: "bytes"},
+				{Mode: "produce", Text: Bs(text), Src: sk}}})
+		}
+	}
+	for sk := 1; sk <= 4; sk++ {
+		out = append(out, c16In{Mode: "hist", Opts: c16Opts{Skip: sk}, Calls: []c16In{
+			{Mode: "consume", Text: Bs(text3), Dst: "records"}, {Mode: "consume", Text: Bs(text3), Dst: "string"},
+			{Mode: "produce", Text: Bs(text3), Src: "string"}, {Mode: "consume", Text: Bs(text3), Dst: "records", PreLen: 1, PreCap: 3}}})
 	}
 	return out
 }
